@@ -12,6 +12,13 @@ def check(pid, text, note, technique, design_ref, level="model_checking"):
     CHECKS[pid] = dict(level=level, text=text, note=note, technique=technique, design_ref=design_ref)
 
 
+check("C01",
+      "spec/AwOwnership.tla models the bucket together with the caller's heap (objects passed in, returned, handed out, metadata dicts): insertion stores a copy, reads create new objects, CallerMutate "
+      "changes the heap only; TLC checks IdsUnique, StoredAsInserted, ReadsReflectStore and the Ownership action property, simulates behaviours from it, and judges their replay on memory/sqlite/peewee "
+      "(same Python objects reused per heap reference, in-place mutation at field and nested depth) with the full listing / lookup / count / metadata after every step.",
+      "Trusted: TLC; value identity is the harness' interning of (instant to ms, duration to us, JSON data), i.e. the property's own equalities; the numeric space (10^15 instants, 30-day durations at us) is sampled "
+      "with boundary instants, not exhausted: TLA+ has no floats, the model decides ownership structure only.",
+      "TLA+ spec + TLC model checking + TLC trace validation of replayed spec behaviours (numeric half sampled)", "DESIGN.md §6 C01")
 check("C02",
       "TLC model-checks the reference list model (spec/AwStore.tla) exhaustively on small constants; behaviours simulated by TLC from the same "
       "specification plus random abstract histories are replayed on memory/sqlite/peewee and every recorded call with the full observed state "
